@@ -604,22 +604,30 @@ fn stmt_expr(cx: &mut Ctx, e: &Expr, rest: &[Stmt], k: &Cont) -> R<Tr> {
                 let isf = cur.ty == Ty::F64;
                 Ok(match op {
                     BinOp::AddAssign(_) => format!("({} + {})", cur.s, r.s),
-                    BinOp::SubAssign(_) => format!("({} - {})", cur.s, r.s),
+                    BinOp::SubAssign(_) => {
+                        if uns {
+                            format!("(usub {} {})", cur.s, r.s)
+                        } else {
+                            format!("({} - {})", cur.s, r.s)
+                        }
+                    }
                     BinOp::MulAssign(_) => format!("({} * {})", cur.s, r.s),
                     BinOp::DivAssign(_) => {
-                        if isf || uns {
+                        if isf {
                             format!("({} / {})", cur.s, r.s)
+                        } else if uns {
+                            format!("(udiv {} {})", cur.s, r.s)
                         } else {
-                            format!("(Int.tdiv {} {})", cur.s, r.s)
+                            format!("(sdiv {} {})", cur.s, r.s)
                         }
                     }
                     BinOp::RemAssign(_) => {
                         if isf {
                             format!("(RFun.fmod {} {})", cur.s, r.s)
                         } else if uns {
-                            format!("({} % {})", cur.s, r.s)
+                            format!("(umod {} {})", cur.s, r.s)
                         } else {
-                            format!("(Int.tmod {} {})", cur.s, r.s)
+                            format!("(smod {} {})", cur.s, r.s)
                         }
                     }
                     _ => unreachable!(),
